@@ -177,27 +177,27 @@ example :
         ⟨700, false, .ping []⟩]], sched := [true] }).2 = .returned false := by
   refine ⟨fun k => Or.inl ?_, ⟨rfl, fun k => Or.inl ?_⟩, by decide⟩ <;> simp [Cfg.act]
 
-/- Full-strength target that does NOT hold of the code (finding F13, recorded):
+/-- generated fact: `handleDisconnect` begins with `if not self.keep_running and not isinstance(e, (KeyboardInterrupt,
+    SystemExit)): teardown(); return` (repair of F13 / F17). -/
+theorem close_guard_in_source : Gen.appCloseGuard = true := by decide
 
-     theorem C14_app_close_clean : "close() called from ANY callback ends the run without an error report
-       and run_forever returns False"
+/-- **C14_closing_is_not_an_error** — once the application has closed the connection (`keep_running` is False) any
+    exception the loop trips over on its way out — the AttributeError of `self.sock.sock` after close() in on_open, the
+    closed transport under a receive, a reset while the closing handshake is awaited — goes to teardown: nothing is reported
+    to on_error, `has_errored` is not touched, and (first teardown of the run, on_close not failing) on_close is called
+    last with the resources released. KeyboardInterrupt still propagates. For every state, exception and configuration. -/
+theorem C14_closing_is_not_an_error (c : Cfg) (s : St) (e : AExn) (rc : Bool)
+    (hk : s.keepRunning = false) (he : e ≠ .ki) :
+    handleDisconnect c s e rc = teardown c s none := by
+  simp [handleDisconnect, close_guard_in_source, hk, he]
 
-   It fails when close() is called inside on_open / on_reconnect: `setSock` goes on to evaluate
-   `self.sock.sock` with `self.sock = None`.  What is proved instead: the general theorems above
-   (`C14_once_last`, `C14_return_value`, `C14_clean`, `C14_rerun`) hold for every plan including close() in
-   any callback -- the run still returns, on_close is still called once and last, the resources are still
-   released and the return value still agrees with what was reported; missing is only "nothing is reported
-   and False is returned" for close() inside on_open / on_reconnect.  The second-thread variant
-   (`C14_async_close_safe`) is not modelled at all (real-code runs only; same finding). -/
-
-/-- **C14_app_close_counterexample** (F13) — close() inside on_open: an internal AttributeError is reported
-    to on_error and run_forever returns True, although the run simply ended by the application's close(). -/
-theorem C14_app_close_counterexample :
+/-- F13's scenario after the repair, executed: close() inside on_open — no error report, on_close(None, None), False. -/
+example :
     let c : Cfg := { has := fun _ => true, plan := fun cb => if cb = .onOpen then [.close] else [], iv := 0,
                      to := none, payload := [], reconnect := 0, ssl := false, horizon := 100000, fuel := 50 }
     let w : St := { dials := [.established [⟨100, false, .message 1 [0x68, 0x69] false⟩]] }
-    (runForeverO c w).2 = .returned true ∧
-    (.onError, [.exn .attrError]) ∈ cbs (runForever c w) := by
+    (runForeverO c w).2 = .returned false ∧
+    cbs (runForever c w) = [(.onOpen, []), (.onClose, [.none, .none])] := by
   decide
 
 end WS.Props.C14
